@@ -176,6 +176,7 @@ def run(tier, seed):
         x = distgen.interior_point(rnd, node)
         xa = numpy.array(x, dtype=float).reshape(-1, 1)
         with numpy.errstate(all="ignore"):
+            distgen.disturb(rnd, node.obj, xa)
             mis = float(node.obj.misfit(xa.copy()))
             grad = col(node.obj.gradient(xa.copy()))
         if not (math.isfinite(mis) and all(math.isfinite(g) for g in grad)):
